@@ -165,6 +165,7 @@ def C05(prog: Program, run: Run, tier: str) -> None:
     run.add(api.rule_api(prog, {"cog._tifffile", "cog._mpu", "cog._mpu_fs", "cog._shared", "cog._s3"} if tier == "quick" else None), "R-API the writer's imports and attribute references resolve in the installed dask/tifffile/numpy")
     run.add(cog.rule_flow16(prog), "R-FLOW16 tile sizes originate from adjust_blocksize/norm_blocksize whose returns are align_up(.,16); both axes padded with the shared level count")
     run.add(cog.rule_rechunk(prog), "R-GUARDSEQ source rechunked to the layout's chunking unless its whole chunk shape already equals it")
+    run.add(cog.rule_cog_levels(prog), "R-GUARDSEQ next-level shape/geobox prepared only while a next level exists; RGB(A) shape heuristic only where the GeoBox cannot tell")
     run.add(cog.rule_tiles_within_source(prog), "R-GUARDSEQ every source block named from a layout tile index is bounded by the source's chunk grid (the layout is padded, the source is not)")
     run.add(cog.rule_order(prog), "R-ORDER the bag list handed to the multi-part writer is the reversed level list (overviews first)")
     run.add([i for i in cog.rule_mpu(prog) if "STRIDE" in i.construct], "R-MPU STRIDE part-id ranges of chunks and sub-streams neither overlap nor leave gaps")
